@@ -94,7 +94,7 @@ def run_cases(rep, cases, conf, variant, table, path, dist, sample_tag=None):
             raw = mo2[idx[k]].split()[1]
             if exp == "ok" and c.queries:
                 al = short_string(bytes.fromhex(raw)).decode("latin-1").lower()
-                c.queries = c.queries + [al] + alias_expansions(al)
+                c.queries = c.queries + [al] + alias_expansions(al) + ([bit5_twin(al)] if bit5_twin(al) != al else [])
         c.lines = case_lines(c, exp)
         c.i0 = len(script)
         script += c.lines
@@ -210,9 +210,18 @@ def alias_expansions(al):
     return out[:3]
 
 
+BIT5 = {"^": "~", "~": "^", "@": "`", "`": "@", "[": "{", "{": "[", "]": "}", "}": "]"}
+def bit5_twin(q):
+    """ASCII punctuation that differs from another legal name character only in bit 5 (the case bit of letters) swapped: a
+    different name, which must not match"""
+    return "".join(BIT5.get(c, c) for c in q)
+
+
 def std_queries(name, table, inv, alias=True):
     """same name, a case-changed spelling, a near miss (different name)"""
     qs = [name, case_variant(name, table, inv)]
+    if bit5_twin(name) != name and spec_validate(bit5_twin(name)) == "ok":
+        qs.append(bit5_twin(name))
     other = name + "x" if len(name.encode()) < 255 else name[:-1]
     if other:
         qs.append(other)
